@@ -4,6 +4,8 @@
    zero counts, errors and fall-backs. *)
 From XcpModel Require Import Base Extents Sparse Blocks CopyLoop Uspace FileCopy.
 From XcpProofs Require Import ExtentsProofs SparseProofs BlocksProofs CopyLoopProofs UspaceProofs FileCopyProofs.
+From XcpModel Require Import Extracted.
+From XcpProofs Require Import ExtractedOk.
 From Coq Require Import Permutation.
 
 (* user-space pread/pwrite loop: Ok means the whole range was moved, aligned;
@@ -91,6 +93,13 @@ Proof. vm_compute. split; reflexivity. Qed.
    by the commit recorded in known_findings.jsonl) *)
 Check block_job_pinned_short_refuted.
 
+(* ---- tie to the current source (translator): the model's definitions used above are
+   EQUAL to what /verif/xlate extracts from the repository on this run ---- *)
+Theorem C05_src_cfr_fallback_errnos : forall e, existsb (N.eqb e) x_cfr_fallback_errnos = cfr_falls_back e.
+Proof. exact x_cfr_fallback_ok. Qed.
+Theorem C05_src_fiemap_unsupported : x_fiemap_unsupported_errnos = [EOPNOTSUPP].
+Proof. exact x_fiemap_unsupported_ok. Qed.
+
 Print Assumptions C05_uspace_range_exact.
 Print Assumptions C05_uspace_bytes_exact.
 Print Assumptions C05_parfile.
@@ -99,3 +108,5 @@ Print Assumptions C05_block_job_complete.
 Print Assumptions C05_fiemap_unsupported_whole_file.
 Print Assumptions C05_cfr_fallback_errnos.
 Print Assumptions C05_clone_unsupported_errnos.
+Print Assumptions C05_src_cfr_fallback_errnos.
+Print Assumptions C05_src_fiemap_unsupported.
